@@ -116,6 +116,7 @@ func runC06(c *Ctx) {
 	}
 
 	c06Shape(c, m, parse)
+	c05HdrLen(c, m)
 	if c.Tier == "thorough" && c.goos == "linux" && c.arch == "amd64" {
 		c05BCE(c, m, "C06.bce-crosscheck", []string{"internal/counter"}, fns)
 	}
